@@ -1,19 +1,20 @@
 #!/bin/bash
 # usage: tools/try_patch.sh <patch.diff> <Cxx> [<Cxx> ...]
 # Applies a seeded change to /repo's working tree, runs the named quick checks against it, and undoes it
-# straight afterwards (git -C /repo checkout -- .). Prints one line per check: <Cxx> exit=<n> <first VIOLATION line>.
+# straight afterwards (git -C "$REPO" checkout -- .). Prints one line per check: <Cxx> exit=<n> <first VIOLATION line>.
 set -u
 PATCH="$(readlink -f "$1")"; shift
 DIR="$(cd "$(dirname "${BASH_SOURCE[0]}")/.." && pwd)"
-if [ -n "$(git -C /repo status --porcelain --untracked-files=no)" ]; then echo "refusing: /repo has uncommitted changes" >&2; exit 2; fi
-git -C /repo apply --check "$PATCH" || { echo "patch does not apply" >&2; exit 2; }
-git -C /repo apply "$PATCH"
-trap 'git -C /repo checkout -- . ; git -C /repo clean -fdq -- src lib 2>/dev/null' EXIT
+REPO="${TRY_REPO:-/repo}"
+if [ -n "$(git -C "$REPO" status --porcelain --untracked-files=no)" ]; then echo "refusing: $REPO has uncommitted changes" >&2; exit 2; fi
+git -C "$REPO" apply --check "$PATCH" || { echo "patch does not apply" >&2; exit 2; }
+git -C "$REPO" apply "$PATCH"
+trap 'git -C "$REPO" checkout -- . ; git -C "$REPO" clean -fdq -- src lib 2>/dev/null' EXIT
 for c in "$@"; do
   out="$DIR/run/try_$(basename "$PATCH" .diff)_$c.log"
   mkdir -p "$DIR/run"
   start=$(date +%s)
-  VERIF_SEED="${VERIF_SEED:-1}" "$DIR/check" check "$c" --tier "${TIER:-quick}" >"$out" 2>&1
+  VERIF_REPO="$REPO" VERIF_SEED="${VERIF_SEED:-1}" "$DIR/check" check "$c" --tier "${TIER:-quick}" >"$out" 2>&1
   rc=$?
   echo "$c exit=$rc wall=$(( $(date +%s) - start ))s $(grep -m1 '^VIOLATION' "$out") $(grep -c '^VIOLATION' "$out") violation line(s); log $out"
 done
